@@ -80,6 +80,10 @@ class C20(Prop):
           self.compare(run, "op %d %s" % (idx, op))
         if len(run.exp_trace) == spytrace.RING:
           classes.append("ring_wrapped")
+      except spytrace.Desync:
+        # the handlers' actions ran in another order / number than the model predicts (a chart
+        # whose exit action queries the chart mid-transition, C01/C02 domain): not comparable
+        stats.exclude("desync_actions_or_capacity")
       except HarnessBound as e:
         raise PropertyViolation("did not terminate: %s" % e, "C20:hang")
       except PropertyViolation:
